@@ -18,22 +18,16 @@ def processLine (st : St) (no : Nat) (line : String) : St × List String :=
         else st
       let kind := if c.op == "q" then "q." ++ c.arg 0 else if c.op == "enc" then "enc." ++ c.arg 0 else c.op
       let st := { st with kinds := st.kinds.insert kind (st.kinds.getD kind 0 + 1) }
-      match d3Relaxed st c got with
-      | some ok =>
-        if ok then ({ st with checked := st.checked + 1 }, [])
-        else ({ st with checked := st.checked + 1, known := st.known + 1 },
-              [s!"KNOWN D3 {c.lineNo} | {c.raw} | relaxed oracle for zero-survivor merge | got {got}"])
-      | none =>
-        match verdict with
-        | .none => (st, [])
-        | .exact want =>
-          if want == got then ({ st with checked := st.checked + 1 }, [])
-          else ({ st with checked := st.checked + 1, mismatches := st.mismatches + 1 },
-                [s!"MISMATCH {c.lineNo} | {c.raw} | want {want} | got {got}"])
-        | .pred ok descr =>
-          if ok got then ({ st with checked := st.checked + 1 }, [])
-          else ({ st with checked := st.checked + 1, mismatches := st.mismatches + 1 },
-                [s!"MISMATCH {c.lineNo} | {c.raw} | want {descr} | got {got}"])
+      match verdict with
+      | .none => (st, [])
+      | .exact want =>
+        if want == got then ({ st with checked := st.checked + 1 }, [])
+        else ({ st with checked := st.checked + 1, mismatches := st.mismatches + 1 },
+              [s!"MISMATCH {c.lineNo} | {c.raw} | want {want} | got {got}"])
+      | .pred ok descr =>
+        if ok got then ({ st with checked := st.checked + 1 }, [])
+        else ({ st with checked := st.checked + 1, mismatches := st.mismatches + 1 },
+              [s!"MISMATCH {c.lineNo} | {c.raw} | want {descr} | got {got}"])
   else
     -- a command without observation that is still pending takes effect now
     let (st, outs) := match st.pending with
